@@ -348,15 +348,19 @@ let show_res (show : 'a -> string) (r : 'a res) : string =
   | Panic -> "panic"
   | OutOfFuel -> "oof"
 
-(* PersistentLoad scripts shared with implrun *)
+(* PersistentLoad scripts shared with implrun.  The hook is an OCaml closure: it also records
+   the Refs it is called with, so that the call log is observable even when Decode later fails
+   in the reader (the model drops its state on that path). *)
+let load_calls : val0 list ref = ref []
 let load_hook (mode : int) : (n -> val0 -> load_result) option =
+  let logged f = Some (fun idx pid -> load_calls := VRef pid :: !load_calls; f idx pid) in
   match mode with
   | 0 -> None
-  | 1 -> Some (fun _ _ -> LNil)
-  | 2 -> Some (fun idx _ -> LObj (VUser idx))
-  | 3 -> Some (fun idx _ ->
+  | 1 -> logged (fun _ _ -> LNil)
+  | 2 -> logged (fun idx _ -> LObj (VUser idx))
+  | 3 -> logged (fun idx _ ->
            match int_of_n idx mod 3 with 0 -> LObj (VUser idx) | 1 -> LNil | _ -> LErr)
-  | 4 -> Some (fun idx pid -> match pid with VStr _ -> LObj (VUser idx) | _ -> LNil)
+  | 4 -> logged (fun idx pid -> match pid with VStr _ -> LObj (VUser idx) | _ -> LNil)
   | _ -> failwith "bad load mode"
 
 let cfg_of (pd : string) (su : string) (lm : string) : dconfig =
@@ -365,6 +369,7 @@ let cfg_of (pd : string) (su : string) (lm : string) : dconfig =
 let b01 b = if b then "1" else "0"
 
 let run_dec (pd : string) (su : string) (lm : string) (hex : string) : string =
+  load_calls := [];
   let cfg = cfg_of pd su lm in
   let inp = bytes_of_hex hex in
   let results = decode_stream cfg inp in
@@ -379,11 +384,10 @@ let run_dec (pd : string) (su : string) (lm : string) (hex : string) : string =
            let s = "ok " ^ string_of_bytes d in
            if has_stale st v then s ^ " ~stale" else s)
       | _ -> show_res (fun _ -> "") r) results in
-  let log = match List.rev results with
-    | (_, st) :: _ -> List.rev_map (fun v ->
-        match dump_val_capped st.d_heap v with
-        | None -> "TOOBIG" | Some d -> string_of_bytes d) st.d_log
-    | [] -> [] in
+  let last_heap = (match List.rev results with (_, st) :: _ -> st.d_heap | [] -> []) in
+  let log = List.rev_map (fun v ->
+      match dump_val_capped last_heap v with
+      | None -> "TOOBIG" | Some d -> string_of_bytes d) !load_calls in
   String.concat " | " parts
   ^ (if !stale_app then " #staleappend" else "")
   ^ (if lm <> "0" then " #log " ^ String.concat " ; " log else "")
